@@ -1,13 +1,13 @@
 SPECIFICATION Spec
 CONSTANTS
-  Clients = {"c1", "c2"}
-  Ids = {"s1", "s2"}
-  MaxCalls = 2
+  Clients = {"c1"}
+  Ids = {"s1"}
+  MaxCalls = 3
   MapsLocked = TRUE
   SessLocked = TRUE
   OldDelete = FALSE
   StepGuard = TRUE
   NilGuard = TRUE
-  WithClose = FALSE
+  WithClose = TRUE
   defaultInitValue = 0
 INVARIANTS NoConflict NoConflict_ingesters NoConflict_cancels NoConflict_state NoConflict_report NoNilCancel StepNotStuck LockDiscipline
